@@ -292,7 +292,12 @@ func (g *Gen) Spec(seed uint64, index int) Spec {
 	if g.Sweep {
 		return g.sweepSpec(seed, index)
 	}
-	return g.spec(seed, index)
+	sp := g.spec(seed, index)
+	if g.Soak != "" || g.SoakVers {
+		// more than 2^16 distinct texts per spelling scheme
+		sp.Flood = 70000
+	}
+	return sp
 }
 
 // sweepGroup is the number of consecutive run indices that share one base spec
@@ -395,7 +400,16 @@ func (g *Gen) spec(seed uint64, index int) Spec {
 			} else {
 				ep.Versions = append(ep.Versions, f.vs...)
 			}
-			ep.Ranges = append(ep.Ranges, f.rs...)
+			if coldFam[n] && len(f.rs) >= 4 {
+				// cold ranges likewise: every other one is left to the tasks
+				for i, r := range f.rs {
+					if i%2 == 0 {
+						ep.Ranges = append(ep.Ranges, r)
+					}
+				}
+			} else {
+				ep.Ranges = append(ep.Ranges, f.rs...)
+			}
 			nv = p.rng(0, 3)
 			if len(ep.Versions) < 2 {
 				nv = 2
@@ -529,6 +543,7 @@ func (g *Gen) spec(seed uint64, index int) Spec {
 			if len(f.rs) > 0 {
 				hots[e].r = append(hots[e].r[:1], f.rs...)
 			}
+			hots[e].r = append(hots[e].r, f.rx...)
 			tm := g.templates[ep.Name]
 			for k := 0; k < 4 && len(tm) > 0; k++ {
 				hots[e].r = append(hots[e].r, fill(p, pickS(p, tm), f.cands))
